@@ -500,4 +500,143 @@ inline void pool_stop_from_coroutine(const vf::opts &o, vf::report &R, uint64_t 
     }
 }
 
+
+// ---------------------------------------------------------------------------------------------
+// A coroutine that runs OUTSIDE coroutine mode: a bare coroutine resumed by ordinary code with handle.resume() (foreign event loop,
+// callback of another library). It wakes waiting coroutines by resolving promises and pushing into queues, discarding or awaiting the
+// suspend points, and regularly returns to ordinary code. Expected (statement): no ready queue is active when it starts running, so a
+// discarded suspend point runs its coroutines at once; `co_await sp` on a non-empty suspend point runs them and continues the awaiting
+// coroutine EXACTLY ONCE - from inside the temporary ready queue, i.e. in coroutine mode until it returns to ordinary code: from then on
+// coroutines it makes ready wait until it suspends. Whenever ordinary code regains control nothing ready is left un-run, no queue is
+// active, and the bare coroutine has continued only past suspensions that ordinary code (or its own awaited wake-ups) ended.
+struct bc_task {
+    struct promise_type {
+        bc_task get_return_object() { return {std::coroutine_handle<promise_type>::from_promise(*this)}; }
+        std::suspend_always initial_suspend() noexcept { return {}; }
+        std::suspend_always final_suspend() noexcept { return {}; }
+        void return_void() {}
+        void unhandled_exception() { std::terminate(); }
+    };
+    std::coroutine_handle<promise_type> h;
+};
+enum { BC_RESOLVE_DISCARD = 0, BC_RESOLVE_AWAIT, BC_PUSH_DISCARD, BC_PUSH_AWAIT, BC_YIELD, BC_NKINDS };
+struct bc_step { int kind; int k; };
+struct bc_world {
+    static constexpr int NF = 8;
+    cocls::future<int> f[NF]; std::optional<cocls::promise<int>> p[NF];
+    cocls::queue<int> q;
+    int ran[2 * NF] = {}, expect[2 * NF] = {}; bool queued[2 * NF] = {}; // 0..NF-1 future waiters, NF.. queue poppers
+    bool has_waiter[NF] = {};
+    std::deque<int> poppers; int npoppers = 0; // waiting pops in arrival order (model)
+    int awaits = 0, continues = 0, driver_continues = 0; bool finished = false;
+    bool coro_mode = false;
+    std::string err;
+    void made_ready(int id) { if (coro_mode) queued[id] = true; else expect[id]++; }
+    void drain() { for (int i = 0; i < 2 * NF; i++) if (queued[i]) { queued[i] = false; expect[i]++; } }
+    void check(const char *after) {
+        if (!err.empty()) return;
+        for (int i = 0; i < 2 * NF; i++) if (ran[i] != expect[i]) {
+            err = std::string("after ") + after + ": " + (i < NF ? "waiter of future " + std::to_string(i) : "waiting pop #" + std::to_string(i - NF)) + " continued " + std::to_string(ran[i]) + " times, expected " + std::to_string(expect[i]) + (coro_mode ? " (driver runs inside the temporary ready queue)" : " (no ready queue active)");
+            return;
+        }
+    }
+};
+inline cocls::async<void> bc_waiter(bc_world &W, int k) { int v = co_await W.f[k]; if (v != 100 + k && W.err.empty()) W.err = "waiter received a wrong value"; W.ran[k]++; }
+inline cocls::async<void> bc_popper(bc_world &W, int id) { cocls::future<int> f = W.q.pop(); bool hv = co_await f.has_value(); (void)hv; W.ran[bc_world::NF + id]++; }
+inline bc_task bc_driver(bc_world &W, const std::vector<bc_step> &steps, std::string &trace) {
+    W.driver_continues++;
+    for (size_t i = 0; i < steps.size() && W.err.empty(); i++) {
+        const bc_step st = steps[i];
+        switch (st.kind) {
+        case BC_RESOLVE_DISCARD:
+            if (!W.p[st.k]) break;
+            trace += "resolve(" + std::to_string(st.k) + ") ";
+            if (W.has_waiter[st.k]) W.made_ready(st.k);
+            { bool ok = (*W.p[st.k])(100 + st.k); W.p[st.k].reset(); if (!ok && W.err.empty()) W.err = "promise call failed"; }
+            break;
+        case BC_RESOLVE_AWAIT: {
+            if (!W.p[st.k]) break;
+            trace += "co_await resolve(" + std::to_string(st.k) + ") ";
+            bool had = W.has_waiter[st.k];
+            if (had) W.made_ready(st.k);
+            cocls::suspend_point<bool> sp = (*W.p[st.k])(100 + st.k); W.p[st.k].reset();
+            W.awaits++;
+            bool ok = co_await sp;
+            W.continues++;
+            if (!ok && W.err.empty()) W.err = "promise call failed";
+            if (had) { W.drain(); W.coro_mode = true; } // really suspended: continued from inside the temporary ready queue
+            if (W.continues != W.awaits && W.err.empty()) W.err = "bare coroutine continued " + std::to_string(W.continues) + " times for " + std::to_string(W.awaits) + " awaited suspend points";
+            break;
+        }
+        case BC_PUSH_DISCARD: case BC_PUSH_AWAIT: {
+            bool wakes = !W.poppers.empty();
+            int id = wakes ? W.poppers.front() : -1;
+            if (wakes) { W.poppers.pop_front(); W.made_ready(bc_world::NF + id); }
+            if (st.kind == BC_PUSH_DISCARD) { trace += "push "; bool ok = W.q.push(7); (void)ok; }
+            else {
+                trace += "co_await push ";
+                cocls::suspend_point<bool> sp = W.q.push(7);
+                W.awaits++;
+                bool ok = co_await sp; (void)ok;
+                W.continues++;
+                if (wakes) { W.drain(); W.coro_mode = true; }
+                if (W.continues != W.awaits && W.err.empty()) W.err = "bare coroutine continued " + std::to_string(W.continues) + " times for " + std::to_string(W.awaits) + " awaited suspend points";
+            }
+            break;
+        }
+        default:
+            trace += "yield ";
+            co_await std::suspend_always{};
+            W.driver_continues++;
+            break;
+        }
+        W.check(st.kind == BC_YIELD ? "resumed by ordinary code" : "a step of the bare coroutine");
+    }
+    trace += "yield ";
+    co_await std::suspend_always{}; // the last suspension is always one that only ordinary code may end
+    W.driver_continues++;
+    W.finished = true;
+}
+inline void bare_coroutine_programs(const vf::opts &o, vf::report &R, uint64_t programs) {
+    vf::rng master(vf::mix(o.seed, 0x05bc));
+    for (uint64_t pn = 0; pn < programs && R.nviol() < 5; pn++) {
+        vf::rng r(master.next());
+        vf::set_crash_ctx(R.prop.c_str(), "bare_coroutine_programs", o.seed, pn);
+        auto Wp = std::make_unique<bc_world>(); bc_world &W = *Wp;
+        std::string trace = "waiters:";
+        for (int k = 0; k < bc_world::NF; k++) { W.p[k].emplace(W.f[k].get_promise()); if (r.chance(2, 3)) { W.has_waiter[k] = true; bc_waiter(W, k).detach(); trace += std::to_string(k); } }
+        int np = (int)r.below(5);
+        for (int i = 0; i < np; i++) { bc_popper(W, i).detach(); W.poppers.push_back(i); }
+        W.npoppers = np;
+        trace += " poppers:" + std::to_string(np) + " | ";
+        std::vector<bc_step> steps;
+        int len = 2 + (int)r.below(14);
+        for (int i = 0; i < len; i++) { uint32_t x = r.below(100); bc_step st{x < 25 ? BC_RESOLVE_DISCARD : x < 55 ? BC_RESOLVE_AWAIT : x < 65 ? BC_PUSH_DISCARD : x < 80 ? BC_PUSH_AWAIT : BC_YIELD, (int)r.below(bc_world::NF)}; steps.push_back(st); }
+        bc_task t = bc_driver(W, steps, trace);
+        int resumes = 0;
+        while (!W.finished && W.err.empty() && resumes < 100) {
+            resumes++;
+            t.h.resume();
+            W.drain(); W.coro_mode = false; // ordinary code again: a temporary queue has been drained before control came back
+            W.check("the bare coroutine returned to ordinary code");
+            if (W.err.empty() && W.driver_continues != resumes) W.err = "bare coroutine continued past a suspension nobody ended (continued " + std::to_string(W.driver_continues) + " times, resumed " + std::to_string(resumes) + " times by ordinary code)";
+            if (W.err.empty() && cocls::coro_queue::is_active()) W.err = "a ready queue is still active in ordinary code";
+        }
+        R.cases++;
+        if (!W.err.empty()) {
+            R.violation("monitor:scheduling|bare_coroutine_programs", W.err, vf::jobj().kv("program", (unsigned long long)pn).kv("seed", (unsigned long long)o.seed).kv("trace", trace).str());
+            (void)Wp.release(); // frames in an unknown state: leaked on purpose
+            continue;
+        }
+        t.h.destroy();
+        for (int k = 0; k < bc_world::NF; k++) W.p[k].reset(); // unresolved promises: their waiters are cancelled (exception escapes into the detached coroutine: swallowed by the library)
+        bool nontrivial = W.awaits >= 1 && len >= 3;
+        if (nontrivial) R.nontrivial_cases++;
+        R.sig(trace, nontrivial);
+        if (W.awaits) R.cls("programs_awaiting_a_suspend_point_outside_coroutine_mode");
+        R.cls("awaited_suspend_points", (uint64_t)W.awaits);
+        if (R.samples.size() < 2 && len > 5) R.sample(vf::jobj().kv("program", trace).kv("result", "every woken coroutine ran exactly once at the expected moment; the bare coroutine continued once per wake-up").str());
+    }
+}
+
 } // namespace scn
